@@ -22,10 +22,23 @@ C16 — property theorems (curve points, lengths and closest-parameter queries a
   T_C16_closest_linear     the closest parameter of the linear interpolant (exact projection) beats every point of every segment
   T_C16_edge               a curve edge's written points are the discretisation minus its ends; the polyline through
                            vertex 1, the written points and vertex 2 is the curve length between the two parameters
+Round 6:
+  T_C16_samples_split / T_C16_additive_samples   discretize over k+m+1 samples splits at the k-th sample; the polyline length is exactly
+                           additive there, for every sample count, curve function and distance oracle
+  T_C16_length_monotone / T_C16_prefix_le        the polyline up to a sample is at most the polyline up to a later one
+  T_C16_circle_polyline_real / T_C16_circle_length_real   (ℝ) CircleCurve: chord sum ≤ radius × parameter range, any ascending samples
+  T_C16_circle_closest_real                      (ℝ) the closest parameter of a query is its angle in the circle's frame
+  T_C16_circle_point       the modelled circle function (Rodrigues) stays on the circle
+  T_C16_closest_param_point   the parameter returned by LinearInterpolatedCurve.get_closest_param addresses the projection point:
+                           get_point(get_closest_param(q)) beats every point of every segment
+  T_C16_tie_params / _samples / _discrete        the model agrees with the guards, counts, operators regenerated from the source text
 Spline interpolation and scipy.optimize.minimize are oracles: validator checks only (see notes/C16.md).
 -/
 import CBV.Lemmas.C16
 import CBV.Lemmas.C08
+import CBV.Lemmas.C16Real
+import CBV.Lemmas.C16Param
+import CBV.Lemmas.C08Tie
 import Mathlib.Tactic.NormNum
 
 namespace CBV.C16
@@ -434,6 +447,243 @@ example : closestSeg [⟨0, 0, 0⟩, ⟨0, 1, 0⟩, ⟨2, 1, 0⟩] ⟨1, 3, 0⟩
     closestParamL [0, 1 / 3, 1] [⟨0, 0, 0⟩, ⟨0, 1, 0⟩, ⟨2, 1, 0⟩] ⟨1, 3, 0⟩ = 2 / 3 ∧
     closestParamL [0, 1 / 3, 1] [⟨0, 0, 0⟩, ⟨0, 1, 0⟩, ⟨2, 1, 0⟩] ⟨5, 0, 0⟩ = 1 := by
   refine ⟨?_, ?_, ?_⟩ <;> decide +kernel
+
+/-! ### round 6: function curves (Line / Circle / Analytic) — samples, exact additivity at sample points, monotone length -/
+
+/-- `FunctionCurveBase.discretize(a, b, k + m + 1)` is `discretize(a, t_k, k + 1)` followed by `discretize(t_k, b, m + 1)` without
+    its first point, for **every** sample count and every split sample `t_k` (`np.linspace` over ℚ, end points exact) -/
+theorem T_C16_samples_split (f : Rat → α) (a b : Rat) (k m : Nat) (hk : 1 ≤ k) (hm : 1 ≤ m) :
+    discretizeF f a b (k + m + 1) =
+      discretizeF f a (sample a b (k + m) k) (k + 1) ++ (discretizeF f (sample a b (k + m) k) b (m + 1)).tail := by
+  unfold discretizeF
+  rw [linspace_split a b k m hk hm, List.map_append, List.map_tail]
+
+/-- **Exact additivity of the model's polyline length of a function curve over a split at a sample point**, for every sample
+    count, every curve function and every distance oracle: the polyline over `k + m + 1` samples is the polyline over the first
+    `k + 1` plus the polyline over the last `m + 1`.  (The implementation's `get_length` always takes 100 samples of the range it
+    is asked for, so the three lengths of `get_length(a, c)`, `get_length(a, b)`, `get_length(b, c)` belong to three different
+    polylines; the discrepancy is only that re-sampling, not the summation.) -/
+theorem T_C16_additive_samples (d : α → α → Rat) (f : Rat → α) (a b : Rat) (k m : Nat) (hk : 1 ≤ k) (hm : 1 ≤ m) :
+    polyLenD d (discretizeF f a b (k + m + 1)) =
+      polyLenD d (discretizeF f a (sample a b (k + m) k) (k + 1)) +
+        polyLenD d (discretizeF f (sample a b (k + m) k) b (m + 1)) := by
+  obtain ⟨mid, hmid⟩ : ∃ mid, mid = sample a b (k + m) k := ⟨_, rfl⟩
+  rw [T_C16_samples_split f a b k m hk hm, ← hmid]
+  have h1 : discretizeF f a mid (k + 1) = ((List.range k).map (sample a mid k)).map f ++ [f mid] := by
+    unfold discretizeF; rw [linspace_eq]; simp
+  obtain ⟨l2, h2⟩ : ∃ l2, discretizeF f mid b (m + 1) = f mid :: l2 := by
+    obtain ⟨hh, _⟩ := T_C16_ends_function f mid b (m + 1) (by omega)
+    cases hD : discretizeF f mid b (m + 1) with
+    | nil => rw [hD] at hh; simp at hh
+    | cons x l2 => rw [hD] at hh; simp at hh; exact ⟨l2, by rw [hh]⟩
+  rw [h1, h2, List.tail_cons]
+  have : (((List.range k).map (sample a mid k)).map f ++ [f mid]) ++ l2
+      = ((List.range k).map (sample a mid k)).map f ++ f mid :: l2 := by simp
+  rw [this, polyLenD_append]
+
+/-- non-vacuity: 7 samples of `t ↦ t²` on [0, 3] split at the 4th sample (t = 2): 9 = 4 + 5 on the real line -/
+example : sample 0 3 6 4 = 2 ∧
+    polyLenD (fun (x y : Rat) => if x ≤ y then y - x else x - y) (discretizeF (fun t => t * t) 0 3 7) = 9 ∧
+    polyLenD (fun (x y : Rat) => if x ≤ y then y - x else x - y) (discretizeF (fun t => t * t) 0 2 5) = 4 ∧
+    polyLenD (fun (x y : Rat) => if x ≤ y then y - x else x - y) (discretizeF (fun t => t * t) 2 3 3) = 5 := by
+  refine ⟨?_, ?_, ?_, ?_⟩ <;> decide +kernel
+
+/-- **The length grows with the parameter**: for a non-negative distance oracle the polyline up to a sample is at most the
+    polyline up to any later sample (in particular at most the whole length), for every sample count -/
+theorem T_C16_length_monotone (d : α → α → Rat) (hd : ∀ x y, 0 ≤ d x y) (f : Rat → α) (a b : Rat) (k m : Nat)
+    (hk : 1 ≤ k) (hm : 1 ≤ m) :
+    0 ≤ polyLenD d (discretizeF f a (sample a b (k + m) k) (k + 1)) ∧
+    polyLenD d (discretizeF f a (sample a b (k + m) k) (k + 1)) ≤ polyLenD d (discretizeF f a b (k + m + 1)) := by
+  rw [T_C16_additive_samples d f a b k m hk hm]
+  have h1 := polyLenD_nonneg d hd (discretizeF f a (sample a b (k + m) k) (k + 1))
+  have h2 := polyLenD_nonneg d hd (discretizeF f (sample a b (k + m) k) b (m + 1))
+  exact ⟨h1, by linarith⟩
+
+/-- … and, for any polyline: a prefix is never longer than the whole -/
+theorem T_C16_prefix_le (d : α → α → Rat) (hd : ∀ x y, 0 ≤ d x y) (l1 : List α) (x : α) (l2 : List α) :
+    polyLenD d (l1 ++ [x]) ≤ polyLenD d (l1 ++ x :: l2) := by
+  rw [polyLenD_append d l1 x l2]
+  have := polyLenD_nonneg d hd (x :: l2)
+  linarith
+
+/-! ### round 6: CircleCurve over ℝ -/
+
+open CBV.C08 (Frame circAt) in
+/-- **Chord sum ≤ arc length** for `CircleCurve`, over ℝ: the polyline through the circle points of any ascending parameter list
+    (any sample count, any spacing) is at most `radius × (last − first)`, the length of the arc. -/
+theorem T_C16_circle_polyline_real {C e1 e2 : Vec ℝ} (hF : Frame e1 e2) {r : ℝ} (hr : 0 ≤ r) (ts : List ℝ)
+    (first last : ℝ) (hf : ts.head? = some first) (hl : ts.getLast? = some last) (hs : ts.Pairwise (· ≤ ·)) :
+    polyLenR distR (ts.map (circAt C e1 e2 r)) ≤ r * (last - first) := by
+  have h1 := circle_polyline_le (C := C) hF hr ts
+  rw [variation_sorted ts last hl hs first hf] at h1
+  exact h1
+
+open CBV.C08 (Frame circAt) in
+/-- non-vacuity: a frame and an ascending parameter list -/
+example : Frame (⟨1, 0, 0⟩ : Vec ℝ) ⟨0, 1, 0⟩ ∧ ([0, 1 / 4, 1 / 2, 1] : List ℝ).Pairwise (· ≤ ·) := by
+  refine ⟨⟨?_, ?_, ?_⟩, ?_⟩
+  · norm_num [Vec.nsq, Vec.dot]
+  · norm_num [Vec.nsq, Vec.dot]
+  · norm_num [Vec.dot]
+  · simp only [List.pairwise_cons, List.mem_cons, List.not_mem_nil, forall_eq_or_imp, or_false]
+    norm_num
+
+open CBV.C08 (Frame circAt) in
+/-- … hence the polyline of `AnalyticCurve.get_length` for a `CircleCurve` (the model's `linspace` with **any** sample count ≥ 2, read
+    in ℝ) never exceeds the arc length `r·(b − a)` -/
+theorem T_C16_circle_length_real {C e1 e2 : Vec ℝ} (hF : Frame e1 e2) {r : ℝ} (hr : 0 ≤ r) (a b : Rat) (hab : a ≤ b) (N : Nat)
+    (hN : 1 ≤ N) :
+    polyLenR distR (((linspace a b (N + 1)).map (fun t : Rat => (t : ℝ))).map (circAt C e1 e2 r)) ≤ r * ((b : ℝ) - (a : ℝ)) := by
+  apply T_C16_circle_polyline_real hF hr
+  · rw [linspace_eq]
+    obtain ⟨n, rfl⟩ : ∃ n, N = n + 1 := ⟨N - 1, by omega⟩
+    simp [List.range_succ_eq_map, sample]
+  · rw [linspace_eq]; simp
+  · rw [List.pairwise_map]
+    exact (linspace_sorted a b hab N).imp (fun h => by exact_mod_cast h)
+
+open CBV.C08 (Frame circAt) in
+/-- **The closest parameter of a point is its angle**, over ℝ: for a query at the angle `φ` of the circle's frame — any
+    distance `ρ ≥ 0` from the axis, any height `h` off the plane — the circle point at `φ` is at least as close as the circle
+    point at every other parameter `t`. -/
+theorem T_C16_circle_closest_real {C e1 e2 : Vec ℝ} (hF : Frame e1 e2) {r ρ : ℝ} (hr : 0 ≤ r) (hρ : 0 ≤ ρ) (φ h t : ℝ) :
+    distR (circAt C e1 e2 r φ) (Vec.add (circAt C e1 e2 ρ φ) (Vec.smul h (Vec.cross e1 e2)))
+      ≤ distR (circAt C e1 e2 r t) (Vec.add (circAt C e1 e2 ρ φ) (Vec.smul h (Vec.cross e1 e2))) := by
+  unfold distR
+  apply Real.sqrt_le_sqrt
+  rw [circle_query_sq hF, circle_query_sq hF, sub_self, Real.cos_zero]
+  have := mul_nonneg (mul_nonneg hr hρ) (sub_nonneg.mpr (Real.cos_le_one (t - φ)))
+  linarith
+
+/-- The model of `CircleCurve._circle_function` (Rodrigues' rotation of the rim point about the unit normal through the origin) stays
+    on the circle for every `(ct, st)` of the unit circle: at the in-plane radius from the circle's centre `O + (n·v) n` and in the
+    plane orthogonal to the normal -/
+theorem T_C16_circle_point (O rim n : V) (ct st : Rat) (hn : Vec.nsq n = 1) (hcs : ct * ct + st * st = 1) :
+    Vec.nsq (Vec.sub (circlePoint O rim n ct st) (Vec.add O (Vec.smul (Vec.dot n (Vec.sub rim O)) n)))
+      = Vec.nsq (Vec.sub rim O) - Vec.dot n (Vec.sub rim O) * Vec.dot n (Vec.sub rim O) ∧
+    Vec.dot (Vec.sub (circlePoint O rim n ct st) (Vec.add O (Vec.smul (Vec.dot n (Vec.sub rim O)) n))) n = 0 := by
+  obtain ⟨v, hv⟩ : ∃ v, v = Vec.sub rim O := ⟨_, rfl⟩
+  have e1 : Vec.nsq (Vec.sub (circlePoint O rim n ct st) (Vec.add O (Vec.smul (Vec.dot n (Vec.sub rim O)) n)))
+      = ct * ct * (Vec.nsq v - 2 * (Vec.dot n v * Vec.dot n v) + Vec.dot n v * Vec.dot n v * Vec.nsq n)
+        + st * st * (Vec.nsq n * (Vec.nsq v - 2 * (Vec.dot n v * Vec.dot n v) + Vec.dot n v * Vec.dot n v * Vec.nsq n)
+            - (Vec.dot n v - Vec.dot n v * Vec.nsq n) * (Vec.dot n v - Vec.dot n v * Vec.nsq n)) := by
+    rw [hv]; simp only [circlePoint, Vec.nsq, Vec.dot, Vec.sub, Vec.add, Vec.smul, Vec.cross]; ring
+  have e2 : Vec.dot (Vec.sub (circlePoint O rim n ct st) (Vec.add O (Vec.smul (Vec.dot n (Vec.sub rim O)) n))) n
+      = ct * Vec.dot n v * (1 - Vec.nsq n) := by
+    rw [hv]; simp only [circlePoint, Vec.nsq, Vec.dot, Vec.sub, Vec.add, Vec.smul, Vec.cross]; ring
+  rw [e1, e2, hn, ← hv]
+  constructor
+  · linear_combination (Vec.nsq v - Vec.dot n v * Vec.dot n v) * hcs
+  · ring
+
+example : Vec.nsq (⟨0, 0, 1⟩ : V) = 1 ∧ ((3 / 5 : Rat) * (3 / 5) + (4 / 5) * (4 / 5) = 1) ∧
+    circlePoint ⟨1, 1, 0⟩ ⟨6, 1, 2⟩ ⟨0, 0, 1⟩ (3 / 5) (4 / 5) = ⟨4, 5, 2⟩ := by
+  refine ⟨by decide +kernel, by norm_num, by decide +kernel⟩
+
+/-! ### round 6: tie to the source text (tables regenerated by `cbv/tables/c16.py` with `ast` on every run) -/
+
+open CBV.C08 (chain opsAt operandsAt cmpOp) in
+/-- `CurveBase._check_param` is `if not (bounds[0] <= param <= bounds[1]): raise ValueError`, `_get_params` replaces a parameter only
+    when it `is None` (defaults `None`): the model's `getParamsF` accepts exactly when the regenerated chained comparison (operators
+    as they stand in the source now) holds for both parameters -/
+theorem T_C16_tie_params (lo hi : Rat) (pf pt : Option Rat) :
+    operandsAt CBV.Gen.c16CheckParamCompares 0 = ("self.bounds[0]", ["param", "self.bounds[1]"]) ∧
+    CBV.Gen.c16CheckParamNegated = [true] ∧
+    CBV.Gen.c16GetParamsCompares = [("param_from", ["Is"], ["None"]), ("param_to", ["Is"], ["None"])] ∧
+    CBV.Gen.c16GetParamsDefaults = [("param_from", "None"), ("param_to", "None")] ∧
+    (do let x ← chain (opsAt CBV.Gen.c16CheckParamCompares 0) [lo, pf.getD lo, hi]
+        let y ← chain (opsAt CBV.Gen.c16CheckParamCompares 0) [lo, pt.getD hi, hi]
+        pure (x && y)) = some (getParamsF lo hi pf pt).isSome := by
+  refine ⟨by decide, by decide, by decide, by decide, ?_⟩
+  have h : opsAt CBV.Gen.c16CheckParamCompares 0 = ["LtE", "LtE"] := by decide
+  rw [h]
+  unfold getParamsF
+  by_cases h1 : lo ≤ pf.getD lo <;> by_cases h2 : pf.getD lo ≤ hi <;> by_cases h3 : lo ≤ pt.getD hi <;>
+    by_cases h4 : pt.getD hi ≤ hi <;> simp [chain, cmpOp, h1, h2, h3, h4]
+
+open CBV.C08 (chain opsAt operandsAt cmpOp) in
+/-- sample counts and calls: `AnalyticCurve.get_length` discretises with `count=100` (the model's `getLengthA`), `FunctionCurveBase.discretize`
+    defaults to 15 samples and passes `num=count` to `np.linspace`; the break points of `InterpolatedCurveBase.get_length` are the knots with
+    `lower < t < upper` (the model's `lengthParams` filter, for every knot and every pair of parameters) -/
+theorem T_C16_tie_samples (d : α → α → Rat) (f : Rat → α) (lo hi : Rat) (pf pt : Option Rat) (ts : List Rat) (a b : Rat) :
+    CBV.Gen.c16AnalyticLengthCall = [["param_from", "param_to", "count=100"]] ∧
+    getLengthA d f lo hi pf pt = (discretizeFB f lo hi pf pt 100).map (polyLenD d) ∧
+    CBV.Gen.c16LinspaceCall = [["param_from", "param_to", "num=count"]] ∧
+    CBV.Gen.c16DiscretizeDefaults =
+      [("CurveBase", [("param_from", "None"), ("param_to", "None"), ("count", "10")]),
+       ("FunctionCurveBase", [("param_from", "None"), ("param_to", "None"), ("count", "15")]),
+       ("DiscreteCurve", [("param_from", "None"), ("param_to", "None"), ("_count", "0")])] ∧
+    operandsAt CBV.Gen.c16InterpLengthCompares 0 = ("lower", ["t", "upper"]) ∧
+    lengthParams ts a b = min a b ::
+      (ts.filter (fun t => chain (opsAt CBV.Gen.c16InterpLengthCompares 0) [min a b, t, max a b] == some true)) ++ [max a b] := by
+  refine ⟨by decide, rfl, by decide, by decide, by decide, ?_⟩
+  have h : opsAt CBV.Gen.c16InterpLengthCompares 0 = ["Lt", "Lt"] := by decide
+  rw [h]
+  unfold lengthParams
+  simp [chain, cmpOp]
+
+open CBV.C08 (chain opsAt operandsAt cmpOp) in
+/-- `DiscreteCurve`: the flip test `param_from > param_to`, the slice `[start : end + 1]`, a single point has length 0
+    (`len(points) < 2 → 0.0`); `LinearInterpolatedCurve.get_closest_param`: `np.where(lengths > 0, lengths, 1)`, `np.clip(ratios, 0, 1)`;
+    `OnCurveEdge.point_array`: the slice `[1:-1]` -/
+theorem T_C16_tie_discrete (x : Rat) :
+    CBV.Gen.c16DiscreteCompares = [("param_from", ["Gt"], ["param_to"])] ∧
+    CBV.Gen.c16DiscreteNumbers = [(0, 1), (1, 1), (0, 1)] ∧
+    CBV.Gen.c16DiscreteLengthCompares = [("len(points)", ["Lt"], ["2"])] ∧
+    CBV.Gen.c16DiscreteLengthNumbers = [(2, 1), (0, 1)] ∧
+    CBV.Gen.c16ClosestLinearCompares = [("lengths", ["Gt"], ["0"])] ∧
+    CBV.Gen.c16ClosestLinearClip = [["ratios", "0", "1"]] ∧
+    CBV.Gen.c16PointArrayNumbers = [(1, 1), (-1, 1)] ∧
+    clip01 x = (if chain ["Lt"] [x, 0] = some true then 0 else if chain ["Gt"] [x, 1] = some true then 1 else x) := by
+  refine ⟨by decide, by decide, by decide, by decide, by decide, by decide, by decide, ?_⟩
+  unfold clip01
+  simp [chain, cmpOp]
+
+/-- The **parameter** returned by `LinearInterpolatedCurve.get_closest_param` addresses the projection point: for strictly increasing
+    knot parameters (chord-length or evenly spaced), `get_point(get_closest_param(q))` exists, is the clipped projection of `q` on the
+    chosen segment, and is at least as close to `q` as every point of every segment of the polyline.  (The return statement
+    `params[i] + ratios[i] * (params[i+1] - params[i])` and scipy's `interp1d` are inverse to each other on a segment: `lerp_at_segment`.) -/
+theorem T_C16_closest_param_point (ts : List Rat) (ps : List V) (q : V) (hl : ts.length = ps.length)
+    (hs : ts.Pairwise (· < ·)) (hlen : 2 ≤ ps.length) :
+    ∃ P, lerp ts ps (closestParamL ts ps q) = some P ∧
+      ∀ (j : Nat) (hj : j < (segments ps).length) (lam : Rat), 0 ≤ lam → lam ≤ 1 →
+        dist2 P q ≤ dist2 (lerpV (segments ps)[j].1 (segments ps)[j].2 lam) q := by
+  obtain ⟨hi, hmin⟩ := T_C16_closest_linear ps q hlen
+  have hseglen : (segments ps).length = ps.length - 1 := by
+    simp only [segments, List.length_zip, List.length_tail]; omega
+  have hi2 : closestSeg ps q + 1 < ps.length := by omega
+  have hi1 : closestSeg ps q + 1 < ts.length := by omega
+  obtain ⟨i, hidef⟩ : ∃ i, i = closestSeg ps q := ⟨_, rfl⟩
+  rw [← hidef] at hi hi2 hi1 hmin
+  have hρ := clip01_bounds (Vec.dot (Vec.sub q ps[i]) (Vec.sub ps[i + 1] ps[i]) /
+      (if 0 < Vec.nsq (Vec.sub ps[i + 1] ps[i]) then Vec.nsq (Vec.sub ps[i + 1] ps[i]) else 1))
+  have hpar : closestParamL ts ps q = ts[i] + segRatio ps[i] ps[i + 1] q * (ts[i + 1] - ts[i]) := by
+    unfold closestParamL
+    simp only [← hidef]
+    rw [List.getD_eq_getElem?_getD, List.getD_eq_getElem?_getD, List.getD_eq_getElem?_getD, List.getD_eq_getElem?_getD,
+      List.getElem?_eq_getElem (by omega), List.getElem?_eq_getElem hi1, List.getElem?_eq_getElem (by omega),
+      List.getElem?_eq_getElem hi2]
+    simp
+  refine ⟨lerpV ps[i] ps[i + 1] (segRatio ps[i] ps[i + 1] q), ?_, ?_⟩
+  · rw [hpar]
+    exact lerp_at_segment ts ps hl hs i hi1 hi2 _ hρ.1 hρ.2
+  · intro j hj lam h0 h1
+    refine le_trans (le_of_eq ?_) (hmin j hj lam h0 h1)
+    have hget : ((segments ps).map (fun s => segDist2 s.1 s.2 q)).getD i 0
+        = segDist2 (segments ps)[i].1 (segments ps)[i].2 q := by
+      simp [List.getD_eq_getElem?_getD, hi]
+    rw [hget]
+    have hseg : (segments ps)[i] = (ps[i], ps[i + 1]) := by
+      simp [segments, List.getElem_zip, List.getElem_tail]
+    rw [hseg]
+    rfl
+
+example : ([0, 1 / 3, 1] : List Rat).Pairwise (· < ·) ∧
+    lerp [0, 1 / 3, 1] [⟨0, 0, 0⟩, ⟨0, 1, 0⟩, ⟨2, 1, 0⟩]
+      (closestParamL [0, 1 / 3, 1] [⟨0, 0, 0⟩, ⟨0, 1, 0⟩, ⟨2, 1, 0⟩] ⟨1, 3, 0⟩) = some ⟨1, 1, 0⟩ := by
+  constructor
+  · simp [List.pairwise_cons]; norm_num
+  · decide +kernel
 
 /-! ### curve edges -/
 
